@@ -113,6 +113,12 @@ J gen_hostile_srv(uint64_t seed, const J &ov)
 				ops.push(o2);
 			}
 		}
+		if (r.chance(0.35)) {
+			J op = J::obj(); op.set("ref", "abs"); op.set("t", (long long)((5 + r.uniform() * H) * 1e6)); op.set("op", "mc"); op.set("who", "h0"); op.set("act", "upflood");
+			op.set("n", (int)(r.chance(0.5) ? r.range(100, 600) : r.range(600, 1600))); op.set("seq", (int)r.range(0, 7)); op.set("per_seq", (int)(r.chance(0.7) ? 16 : r.range(1, 16)));
+			op.set("bytes", (int)r.range(60, 125)); op.set("gap_us", (int)r.range(300, 4000)); op.set("key", (long long)(r.next() >> 1));
+			ops.push(op);
+		}
 		int k = (int)r.range(20, 300);
 		for (int i = 0; i < k; i++) {
 			J op = J::obj(); op.set("ref", "abs"); op.set("t", (long long)((4 + r.uniform() * (H + 10)) * 1e6)); op.set("op", "mc"); op.set("who", "h0"); op.set("act", "hostile"); op.set("key", (long long)(r.next() >> 1));
